@@ -996,13 +996,8 @@ func pipelineDriver(raw json.RawMessage) *Out {
 	}
 	stages["source-api"] = "ok"
 	// ---- ImportAPI / ReExport (C15)
-	nv := len(out.Viol)
+	nv15 := len(out.Viol)
 	c15Check(out, cls, api)
-	if len(out.Viol) == nv {
-		stages["import-api"], stages["re-export"] = "ok", "ok"
-	} else {
-		stages["import-api"] = "violated"
-	}
 	// ---- partial images (C15): the tool builds one bundle at a time, so an image names only the bundle's own packages and
 	// every other package the files refer to is exported as an "indirect" package. Each local package in turn is the only
 	// named one; the export of that image must re-import and re-export like the full one.
@@ -1052,6 +1047,12 @@ func pipelineDriver(raw json.RawMessage) *Out {
 		}
 		out.Events = append(out.Events, map[string]any{"op": "partial-images", "packages": partial, "closures": closures})
 	}
+	// the import / re-export stages stand for the full image and every partial one
+	if len(out.Viol) == nv15 {
+		stages["import-api"], stages["re-export"] = "ok", "ok"
+	} else {
+		stages["import-api"] = "violated"
+	}
 	// ---- ClientAPI, JSONRender, OpenAPI (C16)
 	var client *client_j5pb.API
 	if err, pan := stage("client-api", func() error {
@@ -1087,7 +1088,7 @@ func pipelineDriver(raw json.RawMessage) *Out {
 	} else {
 		stages["openapi"] = "ok"
 	}
-	nv = len(out.Viol)
+	nv := len(out.Viol)
 	c16Client(out, cls, originals, client)
 	if len(out.Viol) == nv {
 		stages["client-contract"] = "ok"
